@@ -149,6 +149,8 @@ def seqStep (st : SeqState) (line : String) : SeqState × String :=
         ({ st with sys := sys }, "cl 1")
       else (st, "cl 0")
     | _, _, _ => (st, "bad-op parse")
+  -- decoding a traceparent header touches no tracing state (its result is C12's business)
+  | [_, "decodeTp", _] => (st, "ok")
   -- `push_child_spans` with the caller's last handle of the set (moved): the set is pushed, the variable is gone
   | [t, "pushChildLast", v, x] =>
     match t.toNat? with
@@ -216,6 +218,7 @@ def offStep (line : String) : String :=
   | [_, "sleep", _] => "ok"
   | [_, "flushBegin"] => "ok"
   | [_, "evNew", _, _, _] => "ok"
+  | [_, "decodeTp", _] => "ok"
   | [_, "pushChildLast", _, _] => "ok"
   | [_, "unwindLocals"] => "ok"
   | [_, "localEnterRe", _] => "ok"
